@@ -742,8 +742,8 @@ fn render_struct_line(
                 quote!(#obj #index,)
             },
         (Unnamed(index), None, Kind::OwnedIntoExisting | Kind::RefIntoExisting, TypeHint::Tuple | TypeHint::Unspecified) => {
-            let index2 = Unnamed(Index { index: f.idx as u32, span: Span::call_site() });
-            quote!(other.#index2 = #obj #index;)
+            let field_path = get_field_path(&Unnamed(Index { index: f.idx as u32, span: Span::call_site() }));
+            quote!(other.#field_path = #obj #index;)
         },
         (Unnamed(index), None, Kind::FromOwned | Kind::FromRef, TypeHint::Tuple | TypeHint::Unspecified | TypeHint::Unit) =>
             if f.attrs.has_parent_attr(&ctx.struct_attr.ty) {
